@@ -272,3 +272,33 @@ fn w_n1_threshold_change_mid_ingestion_traps() {
     crate::set_config(ic_btc_interface::SetConfigRequest { stability_threshold: Some(100), ..Default::default() });
     let _ = with_state_mut(state::ingest_stable_blocks_into_utxoset);
 }
+
+// ---------------------------------------------------------------------------
+// F11 was run as a separate scratch module; it needs these extra imports:
+//   use crate::{runtime::{self, GetSuccessorsReply}, types::{GetSuccessorsPartialResponse, GetSuccessorsResponse}};
+// F11: Partial reply announcing 0 follow-ups: completion test `k+1 == n` is never true.
+#[async_std::test]
+#[should_panic(expected = "remaining_follow_ups >= *follow_up_index")]
+async fn w_f11_partial_with_zero_followups() {
+    crate::memory::set_memory(ic_stable_structures::DefaultMemoryImpl::default());
+    crate::init(InitConfig { stability_threshold: Some(10), network: Some(Network::Regtest), ..Default::default() });
+    let network = Network::Regtest;
+    let block = BlockBuilder::with_prev_header(genesis_block(network).header()).build();
+    let mut bytes = vec![];
+    block.consensus_encode(&mut bytes).unwrap();
+    runtime::set_successors_responses(vec![
+        GetSuccessorsReply::Ok(GetSuccessorsResponse::Partial(GetSuccessorsPartialResponse {
+            partial_block: bytes.clone(),
+            next: vec![],
+            remaining_follow_ups: 0,
+        })),
+        // whatever the source answers to the (unnecessary) follow-up request 0:
+        GetSuccessorsReply::Ok(GetSuccessorsResponse::FollowUp(vec![])),
+    ]);
+    heartbeat().await; // fetch -> Partial(_, 0)
+    println!("F11: after 1: {:?}", with_state(|s| s.syncing_state.response_to_process.as_ref().map(|r| match r { state::ResponseToProcess::Partial(p, k) => format!("Partial(rfu={}, k={})", p.remaining_follow_ups, k), state::ResponseToProcess::Complete(_) => "Complete".into() })));
+    heartbeat().await; // sends FollowUp(0) although 0 remain
+    println!("F11: after 2: {:?}", with_state(|s| s.syncing_state.response_to_process.as_ref().map(|r| match r { state::ResponseToProcess::Partial(p, k) => format!("Partial(rfu={}, k={})", p.remaining_follow_ups, k), state::ResponseToProcess::Complete(_) => "Complete".into() })));
+    assert_eq!(with_state(state::main_chain_height), 0); // block still not applied
+    heartbeat().await; // asserts remaining_follow_ups >= k -> traps, and would trap on every later round
+}
